@@ -24,14 +24,14 @@ def run(ctx, pid):
     pre = common.wrap(preamble_for(objs))
     if pid == "C04":
         gens = [("C04_genq.cfg" if q else "C04_gen.cfg", "edges_h0")]
-        nwalk = 60 if q else 20000
+        nwalk = 60 if q else 1500
     else:
         ctx.assumptions.append("C05 probe after every edge: (upload segment request, client abort | NMT reset communication), then a fresh segmented download + read-back, expedited write/read and a two-block block upload; "
                                "letters that leave the control state unchanged are pumped (8x quick / 40x thorough; the H0 transfer buffer is 21 bytes) before the probe")
         gens = [("C05_genq.cfg" if q else "C05_gen.cfg", "edges_pump_h0"), ("C05_genr.cfg" if q else "C05_genrt.cfg", "edges_resetprobe_h0")]
-        nwalk = 40 if q else 20000
+        nwalk = 40 if q else 1500
     for cfg, label in gens:
         behs = ctx.gen_edges("MCSsdoGen", cfg, timeout=3000)
         ctx.replay(behs, pre, sdo_common.observe, variant="h0", defines=VARIANTS["h0"], ordered=True, label=label)
-    walks = ctx.gen_walks("MCSsdoGen", "C04_walk.cfg", num=nwalk, depth=35)
+    walks = ctx.gen_walks("MCSsdoGen", "C04_walk.cfg", num=nwalk, depth=35, timeout=3000)
     ctx.replay(walks, pre, sdo_common.observe, variant="h0", defines=VARIANTS["h0"], ordered=True, label="walks_h0")
